@@ -563,6 +563,11 @@ func (p *Path) opaqueOf(t types.Type, why string) Value {
 	case *types.Basic:
 		return zero(t)
 	case *types.Interface:
+		// every logger of drand's log package records its arguments (observables of the secrecy property), not
+		// only the one the harness passes in: components create their own (log.New, log.DefaultLogger, Named, With)
+		if n, ok := t.(*types.Named); ok && n.Obj().Pkg() != nil && n.Obj().Pkg().Path() == modPath+"/common/log" && n.Obj().Name() == "Logger" {
+			return Iface{T: p.eng.opaqueT, V: &Native{Kind: "opaque", Data: "logger"}}
+		}
 		if types.Identical(t, p.eng.errorType) {
 			if strings.Contains(why, "Error") || strings.HasSuffix(why, ".Err") {
 				return Iface{T: p.eng.opaqueT, V: &Native{Kind: "opaque", Data: why}}
